@@ -64,13 +64,13 @@ type Proxy struct {
 
 // freePort picks a loopback port below the ephemeral range (ports of that range are handed to
 // outgoing connections of any process and may be gone again by the time the NodeHost binds the
-// address it was given): 20000-29999, starting at a position derived from the process id, probing.
+// address it was given): 21000-24999 (the repository's own tests bind 25001 and 26001-26003), starting at a position derived from the process id, probing.
 var portCursor uint32
 
 func freePort() (string, error) {
 	for try := 0; try < 2000; try++ {
 		n := atomic.AddUint32(&portCursor, 1)
-		port := 20000 + (uint32(os.Getpid())*131+n*17)%10000
+		port := 21000 + (uint32(os.Getpid())*131+n*17)%4000
 		a := fmt.Sprintf("127.0.0.1:%d", port)
 		l, err := net.Listen("tcp", a)
 		if err != nil {
@@ -79,7 +79,7 @@ func freePort() (string, error) {
 		_ = l.Close()
 		return a, nil
 	}
-	return "", fmt.Errorf("no free loopback port in 20000-29999")
+	return "", fmt.Errorf("no free loopback port in 21000-24999")
 }
 
 // NewProxy listens on an ephemeral loopback port and forwards to target.
